@@ -690,7 +690,7 @@ func ruleW4(c *Ctx) {
 // ---------- F4 ----------
 
 func init() {
-	register("F4", "freeze flags are set only by freezing: every store to a `frozen` flag (a bool field, or the bool behind a `frozen` pointer field) writes the constant true from inside a Freeze method (which then descends, F1/F2) or the constant false; a flag is never computed or copied from another object's flag, which would mark a value frozen without freezing what it holds", 4, ruleF4)
+	register("F4", "freeze flags are set only by freezing: every store to a `frozen` flag (a bool field, or the bool behind a `frozen` pointer field) writes the constant true from inside a Freeze method (which then descends, F1/F2) or the constant false; a flag is never computed or copied from another object's flag, which would mark a value frozen without freezing what it holds", 3, ruleF4)
 	claim("C04", "F4")
 	claim("C20", "F4")
 }
@@ -729,6 +729,64 @@ func ruleF4(c *Ctx) {
 					return
 				}
 				owner = qualType(fa.X.Type())
+			case *ssa.Parameter:
+				// a helper that is handed the flag's address (setFrozen(m.frozen)): every caller must
+				// pass a `frozen` pointer field and be a Freeze method
+				pt, ok := a.Type().(*types.Pointer)
+				if !ok {
+					return
+				}
+				if b, ok := pt.Elem().Underlying().(*types.Basic); !ok || b.Kind() != types.Bool {
+					return
+				}
+				idx := -1
+				for i, q := range fn.Params {
+					if q == a {
+						idx = i
+					}
+				}
+				flagArgs, fromFreeze, sites := true, true, 0
+				for _, g := range callersOf(c.P, fn) {
+					eachInstr(g, func(in2 ssa.Instruction) {
+						ci, ok := in2.(ssa.CallInstruction)
+						if !ok || ci.Common().StaticCallee() != fn || idx < 0 || idx >= len(ci.Common().Args) {
+							return
+						}
+						sites++
+						isFlag := false
+						if u, ok := ci.Common().Args[idx].(*ssa.UnOp); ok {
+							if fa, ok := u.X.(*ssa.FieldAddr); ok {
+								if stt, _ := deref(fa.X.Type()).Underlying().(*types.Struct); stt != nil && stt.Field(fa.Field).Name() == "frozen" {
+									isFlag = true
+								}
+							}
+						}
+						if !isFlag {
+							flagArgs = false
+						}
+						if !strings.EqualFold(outermost(g).Name(), "freeze") {
+							fromFreeze = false
+						}
+					})
+				}
+				if sites == 0 || !flagArgs {
+					return // not a freeze-flag helper
+				}
+				n++
+				key := fmt.Sprintf("%s: store through flag pointer parameter", fnName(fn))
+				pos := c.P.Pos(st.Pos())
+				k, isConst := st.Val.(*ssa.Const)
+				switch {
+				case !isConst:
+					c.viol(key, pos, "the freeze flag is computed instead of being set by Freeze")
+				case k.Value != nil && k.Value.String() == "false":
+					c.ok(key, pos, "resets the flag to false")
+				case fromFreeze:
+					c.ok(key, pos, "constant true, in a helper called only from Freeze methods with their own flag")
+				default:
+					c.viol(key, pos, "the freeze flag is set by a helper that is also called outside Freeze methods: nothing guarantees that the contained values are frozen too")
+				}
+				return
 			default:
 				return
 			}
@@ -748,7 +806,7 @@ func ruleF4(c *Ctx) {
 			}
 		})
 	}
-	if n < 4 {
+	if n < 3 {
 		c.anchorFail("only %d stores to freeze flags found", n)
 	}
 }
